@@ -208,10 +208,9 @@ func genC04(g *Gen, in Inst, tier string) []HarnessSrc {
 		nd(T, "x"), clone, hash, hash, ref)))
 	if in.Tags["float"] {
 		z := g.RefZClone(T)
-		kf := h("VX_C04_zero_"+in.ID+"__KF_F3", "zero", fmt.Sprintf(
-			"\tx := %s\n\ty := %s(x)\n\tvx.Assume(%s(x, y))\n\tvx.Assert(%s(x) == %s(y), \"hash invariant under +0/-0\")\n", nd(T, "x"), z, eq, hash, hash))
-		kf.KF = "F3"
-		out = append(out, kf)
+		// (F3, repaired: these two were the twins that reported it)
+		out = append(out, h("VX_C04_zero_"+in.ID, "zero", fmt.Sprintf(
+			"\tx := %s\n\ty := %s(x)\n\tvx.Assume(%s(x, y))\n\tvx.Assert(%s(x) == %s(y), \"hash invariant under +0/-0\")\n", nd(T, "x"), z, eq, hash, hash)))
 	}
 	// direct statement on two independent values (small types only; bigger ones are covered by L1+L2)
 	if in.Tags["float"] {
@@ -220,11 +219,9 @@ func genC04(g *Gen, in Inst, tier string) []HarnessSrc {
 		out = append(out, h("VX_C04_direct_"+in.ID, "direct", fmt.Sprintf(
 			"\tx := %s\n\ty := %s\n\tvx.Assume(%s(x, y))\n\tvx.Assume(%s(x, y))\n\tvx.Assert(%s(x) == %s(y), \"Equal implies same hash (floats bit-identical)\")\n",
 			nd(T, "x"), nd(T, "y"), eq, bits, hash, hash)))
-		kf := h("VX_C04_direct_"+in.ID+"__KF_F3", "direct", fmt.Sprintf(
-			"\tx := %s\n\ty := %s\n\tvx.Assume(%s(x, y))\n\tvx.Assume(%s(x, y))\n\tvx.Assert(%s(x) == %s(y), \"Equal implies same hash\")\n",
-			nd(T, "x"), nd(T, "y"), eq, ref, hash, hash))
-		kf.KF = "F3"
-		out = append(out, kf)
+		out = append(out, h("VX_C04_directz_"+in.ID, "direct", fmt.Sprintf(
+			"\tx := %s\n\ty := %s\n\tvx.Assume(%s(x, y))\n\tvx.Assume(%s(x, y))\n\tvx.Assert(%s(x) == %s(y), \"Equal implies same hash (+0 and -0 included)\")\n",
+			nd(T, "x"), nd(T, "y"), eq, ref, hash, hash)))
 	} else {
 		out = append(out, h("VX_C04_direct_"+in.ID, "direct", fmt.Sprintf(
 			"\tx := %s\n\ty := %s\n\tvx.Assume(%s(x, y))\n\tvx.Assume(%s(x, y))\n\tvx.Assert(%s(x) == %s(y), \"Equal implies same hash\")\n",
